@@ -84,7 +84,9 @@ func genC15(t *rapid.T) *Case {
 	}
 	c.Spec = genSpec(t, nil)
 	m := BuildModel(c.Spec)
-	switch rapid.IntRange(0, 9).Draw(t, "inputKind") {
+	switch rapid.IntRange(0, 10).Draw(t, "inputKind") {
+	case 10:
+		c.Input = BStr(genCorpusMutation(t))
 	case 0:
 		c.Input = BStr(rapid.SliceOfN(rapid.Byte(), 0, 120).Draw(t, "bytes"))
 	case 1:
